@@ -501,6 +501,24 @@ def _corpus_families(big):
               "levels": [{"name": "hit", "w": 1, "table": hit}, {"name": "miss", "w": 1, "table": [1 - x for x in hit]}]}
         out.append({"factors": [wa, wb, wt, ww], "block": {"k": "cross", "design": [0, 1, 2, 3], "crossing": [0, 1], "rcc": True, "cs": []}})
     out.mark()
+    # Nest whose outer block crosses a complex-window factor (Transition; a window with an explicit later start): every
+    # outer trial is sustained over the inner block, and so are the window's offsets and its start
+    nA, nS = _sf(0, ["a1", "a2"]), _sf(10, ["s1", "s2"])
+    ntr = _transition(1, 0, 2)
+    nwin = dict(ntr, window={"deps": [0], "width": 2, "stride": 1, "start": 2, "kind": "window"})
+    for der in (ntr, nwin):
+        out.append({"factors": [nA, der, nS], "block": {"k": "nest", "cs": [], "align": "post preamble",
+                    "outer": {"k": "cross", "design": [0, 1], "crossing": [0, 1], "rcc": True, "cs": []},
+                    "inner": {"k": "cross", "design": [10], "crossing": [10], "rcc": True, "cs": []}}})
+    out.mark()
+    # a weighted Transition level in the crossing and a partial last round (RandomGen enforces such crossings by rejection)
+    wc = _sf(0, ["red", "blue"])
+    wtr = _transition(1, 0, 2)
+    wtr["levels"][0]["w"] = 2
+    out.append({"factors": [wc, wtr], "block": {"k": "cross", "design": [0, 1], "crossing": [1], "rcc": True, "cs": [{"k": "MinimumTrials", "n": 6}]}})
+    out.append({"factors": [wc, wtr], "block": {"k": "repeat", "cs": [{"k": "MinimumTrials", "n": 6}],
+                "b": {"k": "cross", "design": [0, 1], "crossing": [1], "rcc": True, "cs": []}}})
+    out.mark()
     # an ElseLevel that is not the last level of its factor (within-trial and Transition)
     e3 = _sf(0, ["red", "green", "blue"])
     ekind = {"id": 1, "name": "f1", "window": {"deps": [0], "width": 1, "stride": 1, "start": None, "kind": "within"},
